@@ -10,12 +10,16 @@ import (
 	"sort"
 	"strconv"
 	"strings"
+	"sync"
 	"time"
 )
 
 type KnownFinding struct {
 	Property   string
-	Obligation string // exact obligation name, or prefix ending in '*'
+	Obligation string // exact obligation name
+	LaneWhen   string // optional per-lane input class (vector handlers): lanes inside it are exempt from the clauses
+	When       string // optional input class (spec expression): the finding is known only inside it
+	Case       string // "@known<k>" suffix the obligation carries when When is set
 	What       string
 }
 
@@ -43,7 +47,18 @@ func loadKnownFindings(path string) (known []KnownFinding, fixed []string) {
 		if len(parts) == 2 {
 			k.What = strings.TrimSpace(parts[1])
 		}
-		for _, f := range strings.Fields(parts[0]) {
+		head := parts[0]
+		if i := strings.Index(head, "lanewhen={"); i >= 0 {
+			j := strings.Index(head[i:], "}") + i
+			k.LaneWhen = strings.TrimSpace(head[i+10 : j])
+			head = head[:i] + head[j+1:]
+		}
+		if i := strings.Index(head, "when={"); i >= 0 {
+			j := strings.LastIndex(head, "}")
+			k.When = strings.TrimSpace(head[i+6 : j])
+			head = head[:i] + head[j+1:]
+		}
+		for _, f := range strings.Fields(head) {
 			if strings.HasPrefix(f, "property=") {
 				k.Property = strings.TrimPrefix(f, "property=")
 			}
@@ -57,10 +72,38 @@ func loadKnownFindings(path string) (known []KnownFinding, fixed []string) {
 }
 
 func (k KnownFinding) matches(prop, name string) bool {
-	if k.Property != prop {
-		return false
+	if k.Property != prop || k.LaneWhen != "" {
+		return false // per-lane classes exempt lanes inside the proof; they never excuse a failed obligation
 	}
-	return k.Obligation == name
+	return k.Obligation+k.Case == name
+}
+
+// knownCaseSplit: the distinct `when` classes recorded for each function; entry k of a
+// function's list is case "known<k>" of its verification, everything else is case "rest".
+func knownCaseSplit(known []KnownFinding) map[string][]string {
+	out := map[string][]string{}
+	for i := range known {
+		k := &known[i]
+		if k.When == "" {
+			continue
+		}
+		fn := k.Obligation
+		if j := strings.Index(fn, "#"); j >= 0 {
+			fn = fn[:j]
+		}
+		idx := -1
+		for n, w := range out[fn] {
+			if w == k.When {
+				idx = n
+			}
+		}
+		if idx < 0 {
+			out[fn] = append(out[fn], k.When)
+			idx = len(out[fn]) - 1
+		}
+		k.Case = fmt.Sprintf("@known%d", idx)
+	}
+	return out
 }
 
 type oblRecord struct {
@@ -256,10 +299,27 @@ func runCheck(o checkOpts) *checkResult {
 		}
 	}
 	installPropertyHooks(w, o.prop)
+	known, fixedLines := loadKnownFindings(filepath.Join(o.verif, "known_findings.txt"))
+	_ = fixedLines
+	w.knownCases = knownCaseSplit(known)
+	w.knownLane = map[string][]string{}
+	for _, k := range known {
+		if k.LaneWhen != "" && k.Property == o.prop {
+			fn := k.Obligation
+			if j := strings.Index(fn, "#"); j >= 0 {
+				fn = fn[:j]
+			}
+			w.knownLane[fn] = append(w.knownLane[fn], k.LaneWhen)
+		}
+	}
 
 	var results []*FuncResult
 	var obls []*Obligation
-	for _, ct := range mine {
+	// obligations are generated per function in parallel (each has its own context)
+	resArr := make([]*FuncResult, len(mine))
+	var gwg sync.WaitGroup
+	sem := make(chan struct{}, 12)
+	for i, ct := range mine {
 		if ct.Fn == nil {
 			continue
 		}
@@ -267,12 +327,30 @@ func runCheck(o checkOpts) *checkResult {
 			w.noteAssumed("trusted contract (body not verified): " + ct.FullName() + " — " + ct.Trusted)
 			continue
 		}
-		r := w.verifyFunction(ct)
+		gwg.Add(1)
+		go func(i int, ct *Contract) {
+			defer gwg.Done()
+			sem <- struct{}{}
+			defer func() { <-sem }()
+			resArr[i] = w.verifyFunction(ct)
+		}(i, ct)
+	}
+	gwg.Wait()
+	for i, ct := range mine {
+		r := resArr[i]
+		if r == nil {
+			continue
+		}
 		results = append(results, r)
 		if r.Err != "" {
 			p := writeReplay("refused."+ct.FullName(), map[string]interface{}{"obligation": ct.FullName() + "#generate", "reason": r.Err})
 			violation(p, "no-failing-input-found")
 			continue
+		}
+		if os.Getenv("GOCV_DEBUG") != "" {
+			for _, n := range r.Ctx.notes {
+				fmt.Fprintln(os.Stderr, "note:", ct.FullName(), n)
+			}
 		}
 		for _, ob := range r.Ctx.obls {
 			ob.Property = o.prop
@@ -302,12 +380,11 @@ func runCheck(o checkOpts) *checkResult {
 	}
 	res.allObls = obls
 
-	known, fixedLines := loadKnownFindings(filepath.Join(o.verif, "known_findings.txt"))
-	_ = fixedLines
 	nProof, nDis, nCover := 0, 0, 0
 	var recs []oblRecord
 	var samples []interface{}
 	knownHit := map[string]bool{}
+	nLaneKnown := 0
 	var knownReplayed []interface{}
 	nHelper := 0
 	for _, ob := range obls {
@@ -357,6 +434,22 @@ func runCheck(o checkOpts) *checkResult {
 			samples = append(samples, map[string]interface{}{"obligation": ob.Name, "goal_smt": trunc(ob.Goal.S, 600), "backend": ob.Solver})
 		}
 	}
+	for _, k := range known {
+		if k.LaneWhen == "" || k.Property != o.prop {
+			continue
+		}
+		fn := k.Obligation
+		if j := strings.Index(fn, "#"); j >= 0 {
+			fn = fn[:j]
+		}
+		for _, ct := range mine {
+			if ct.FullName() == fn && !knownHit[k.Obligation+"|"+k.LaneWhen] {
+				knownHit[k.Obligation+"|"+k.LaneWhen] = true
+				nLaneKnown++
+				say("KNOWN-FINDING: property=%s %s lanes{%s} :: %s", o.prop, k.Obligation, k.LaneWhen, k.What)
+			}
+		}
+	}
 	res.known = len(knownHit)
 	for _, ob := range res.failedObls {
 		payload := map[string]interface{}{"obligation": ob.Name, "kind": ob.Kind, "function": ob.Func, "position": ob.Pos.String(),
@@ -396,7 +489,7 @@ func runCheck(o checkOpts) *checkResult {
 		res.exit = 1
 	}
 	if !o.noEvidence && o.only == "" {
-		writeEvidence(w, o, seed, recs, samples, nProof-len(knownHit), nDis, nCover, len(res.violations), len(knownHit), time.Since(t0).Seconds(), solveSecs, mine, results, knownReplayed)
+		writeEvidence(w, o, seed, recs, samples, nProof-(len(knownHit)-nLaneKnown), nDis, nCover, len(res.violations), len(knownHit), time.Since(t0).Seconds(), solveSecs, mine, results, knownReplayed)
 	}
 	say("property %s: %d obligations, %d discharged, %d known findings, %d cover checks, %d violations, %.1fs (load %.1fs, gen %.1fs, solve %.1fs)",
 		o.prop, nProof, nDis, len(knownHit), nCover, len(res.violations), time.Since(t0).Seconds(), w.loadSecs, genSecs, solveSecs)
